@@ -1,7 +1,11 @@
 """C07 — arena-model property (see DESIGN.md §7 C07); theorems in lean/BumpProof/Props/C07.lean"""
 from engines.arena_prop import run_arena_property
+from engines.purefn import run_purefn
 
 def run(ctx):
+    # size computations that would overflow must be reported as "does not fit", never panic or wrap:
+    # the shared align helpers of src/lib.rs against their wide-integer meaning
+    run_purefn(ctx, ["lib"], 20000 if ctx.quick() else 400000, oracle_prefixes=("spec_lib",))
     return run_arena_property(ctx, ["BumpProof.Props.C07"],
         runs_quick=[('faults', 200, 100)],
         runs_thorough=[('faults', 8000, 200), ('ledger', 2000, 200)],
